@@ -3,6 +3,7 @@ import RModel.Base.Utf8
 import RModel.Model.Matcher
 import RModel.Model.Hunks
 import RModel.Gen.ReplaceOffsets
+import RModel.Gen.LineAfterColumn
 /- driver operations for the matcher and the hunk / diff geometry (C03, C15) -/
 open B
 
@@ -49,7 +50,7 @@ def dispatch : List String → Option String
     -- all hunks of one file in one request: `G item ; item ; …`
     match ofHex c, spans? rest with
     | some c, some xs =>
-      some ("G " ++ " ; ".intercalate (xs.map (fun x => showGeom (Hunks.hunkGeomAt c x.1 x.2.1 x.2.2.1 x.2.2.2))))
+      some ("G " ++ " ; ".intercalate (xs.map (fun x => showGeom (Hunks.hunkGeomAtG Gen.lineAfterColumnIsByte c x.1 x.2.1 x.2.2.1 x.2.2.2))))
     | _, _ => some "bad-req"
   | "findmatches" :: c :: vs =>
     match ofHex c, hexList vs with
@@ -64,7 +65,7 @@ def dispatch : List String → Option String
   | ["hunkgeom", c, s, e, t, r] =>
     match ofHex c, s.toNat?, e.toNat?, ofHex t, ofHex r with
     | some c, some s, some e, some t, some r =>
-      some (match Hunks.hunkGeomAt c s e t r with
+      some (match Hunks.hunkGeomAtG Gen.lineAfterColumnIsByte c s e t r with
         | .skip => "g skip"
         | .panic => "g panic"
         | .ok h how => s!"g {showHunk h} {showHow how}")
